@@ -51,6 +51,17 @@ class HasToUnitless (α : Type) where toUnitless : α → α
 '''
 
 
+IMPURE = {}     # function name -> P.impure_augassigns(original FunctionDef): `x op= e` that is not `x = x op e` for array arguments
+
+
+def tf(src, tree, funcname, **kw):
+    """P.translate_function on a source that THIS extractor normalised (`op=` desugared): the impure augmented assignments of the
+    original function are handed to the translator (hashed into @skipped, so the `…_sig_guard` opens)"""
+    if IMPURE.get(funcname):
+        kw.setdefault('extra_skipped', list(IMPURE[funcname]))
+    return P.translate_function(src, tree, funcname, **kw)
+
+
 def _float_values(node):
     return [Fraction(repr(n.value)) for n in ast.walk(node) if isinstance(n, ast.Constant) and isinstance(n.value, float)]
 
@@ -138,6 +149,7 @@ def normalised(src, tree, funcname):
     """(source text, tree) of a module holding only `funcname`, with `x op= e` rewritten and the to_unitless import dropped"""
     f = find_def(tree, funcname)
     _literal_check(src, f)
+    IMPURE[funcname] = P.impure_augassigns(f)
     g = ast.fix_missing_locations(inline_bool_temps(_Norm().visit(copy.deepcopy(f))))
     text = ast.unparse(g) + '\n'
     t2 = ast.parse(text)
@@ -152,6 +164,7 @@ def with_err_mult(src, tree, funcname):
     i-th argument); `x += e` rewritten as in `normalised`."""
     f = find_def(tree, funcname)
     _literal_check(src, f)
+    IMPURE[funcname] = P.impure_augassigns(f)
     g = inline_bool_temps(_Norm().visit(copy.deepcopy(f)))
     a = g.args
     names = [x.arg for x in a.args]
@@ -176,6 +189,7 @@ def truncated(src, tree, funcname, stop, ret, drop_params=()):
     appended.  ExtractError if no statement matches."""
     f = find_def(tree, funcname)
     _literal_check(src, f)
+    IMPURE[funcname] = P.impure_augassigns(f)
     g = inline_bool_temps(_Norm().visit(copy.deepcopy(f)))
     if drop_params:
         # parameters that the kept statements do not use (callbacks, **kwargs); defaults are aligned from the right
@@ -247,9 +261,9 @@ def generate(repo):
     # ---- water density (Tanaka 2001) ----------------------------------------------------------------
     src, tree = parse(repo, D_DENS)
     src, tree = normalised(src, tree, 'water_density')      # every function goes through the same normalisation (see `normalised`)
-    parts.append(P.translate_function(src, tree, 'water_density', lean_name='waterDensity', params=['T']))
-    parts.append(P.translate_function(src, tree, 'water_density', lean_name='waterDensityU', params=['T'], units_mode=True))
-    parts.append(P.translate_function(src, tree, 'water_density', lean_name='waterDensityI', params=['T'], inline_lets=True,
+    parts.append(tf(src, tree, 'water_density', lean_name='waterDensity', params=['T']))
+    parts.append(tf(src, tree, 'water_density', lean_name='waterDensityU', params=['T'], units_mode=True))
+    parts.append(tf(src, tree, 'water_density', lean_name='waterDensityI', params=['T'], inline_lets=True,
                                       doc='`water_density` (units=None) with every local inlined'))
 
     # ---- water viscosity (Korson 1969) -------------------------------------------------------------
@@ -257,8 +271,8 @@ def generate(repo):
     ctext, cenv = P.translate_module_constants(src, tree, names=['A', 'B', 'C', 'eta20_cP'], prefix='visc_')
     parts.append(ctext)
     vsrc, vtree = normalised(src, tree, 'water_viscosity')
-    parts.append(P.translate_function(vsrc, vtree, 'water_viscosity', lean_name='waterViscosity', const_env=cenv, params=['T']))
-    parts.append(P.translate_function(vsrc, vtree, 'water_viscosity', lean_name='waterViscosityU', const_env=cenv, params=['T'],
+    parts.append(tf(vsrc, vtree, 'water_viscosity', lean_name='waterViscosity', const_env=cenv, params=['T']))
+    parts.append(tf(vsrc, vtree, 'water_viscosity', lean_name='waterViscosityU', const_env=cenv, params=['T'],
                                       units_mode=True, extra_funcs=TU))
 
     # ---- water self-diffusion (Holz 2000) -----------------------------------------------------------
@@ -267,23 +281,23 @@ def generate(repo):
     ctext, cenv = P.translate_module_constants(src, tree, names=names + ['dgamma', 'dD0', 'dTS'], prefix='diff_')
     parts.append(ctext)
     dsrc_, dtree_ = normalised(src, tree, 'water_self_diffusion_coefficient')
-    parts.append(P.translate_function(dsrc_, dtree_, 'water_self_diffusion_coefficient', lean_name='waterDiffusivity',
+    parts.append(tf(dsrc_, dtree_, 'water_self_diffusion_coefficient', lean_name='waterDiffusivity',
                                       const_env=cenv, params=['T']))
-    parts.append(P.translate_function(dsrc_, dtree_, 'water_self_diffusion_coefficient', lean_name='waterDiffusivityU',
+    parts.append(tf(dsrc_, dtree_, 'water_self_diffusion_coefficient', lean_name='waterDiffusivityU',
                                       const_env=cenv, params=['T'], units_mode=True))
 
     esrc, etree = with_err_mult(src, tree, 'water_self_diffusion_coefficient')
     EP = ['T', 'err_mult_0', 'err_mult_1']
-    parts.append(P.translate_function(esrc, etree, 'water_self_diffusion_coefficient', lean_name='waterDiffusivityErr', const_env=cenv, params=EP,
+    parts.append(tf(esrc, etree, 'water_self_diffusion_coefficient', lean_name='waterDiffusivityErr', const_env=cenv, params=EP, defaults_may_use_params=True,
                                       doc='`water_self_diffusion_coefficient(T, err_mult=(err_mult_0, err_mult_1))`, units=None'))
-    parts.append(P.translate_function(esrc, etree, 'water_self_diffusion_coefficient', lean_name='waterDiffusivityErrU', const_env=cenv, params=EP,
+    parts.append(tf(esrc, etree, 'water_self_diffusion_coefficient', lean_name='waterDiffusivityErrU', const_env=cenv, params=EP, defaults_may_use_params=True,
                                       units_mode=True, doc='`water_self_diffusion_coefficient(T, units=u, err_mult=(err_mult_0, err_mult_1))`'))
 
     # ---- water permittivity (Bradley & Pitzer 1979) -----------------------------------------------
     src, tree = parse(repo, D_PERM)
     psrc, ptree = normalised(src, tree, 'water_permittivity')
-    parts.append(P.translate_function(psrc, ptree, 'water_permittivity', lean_name='waterPermittivity', params=['T', 'P']))
-    parts.append(P.translate_function(psrc, ptree, 'water_permittivity', lean_name='waterPermittivityU', params=['T', 'P'],
+    parts.append(tf(psrc, ptree, 'water_permittivity', lean_name='waterPermittivity', params=['T', 'P']))
+    parts.append(tf(psrc, ptree, 'water_permittivity', lean_name='waterPermittivityU', params=['T', 'P'],
                                       units_mode=True, extra_funcs=TU))
 
     # ---- sulfuric acid density (Myhre 1998) --------------------------------------------------------
@@ -293,12 +307,12 @@ def generate(repo):
     is_tarr = _assigns('t_arr')
     tsrc, ttree = truncated(src, tree, 'sulfuric_acid_density', is_tarr, 't_K')
     cut_hook = lambda test, text: None
-    parts.append(P.translate_function(tsrc, ttree, 'sulfuric_acid_density', lean_name='sulfuricT', params=['w', 'T'],
+    parts.append(tf(tsrc, ttree, 'sulfuric_acid_density', lean_name='sulfuricT', params=['w', 'T'],
                                       doc='the reduced temperature `t_K` (= `t / K`) of `sulfuric_acid_density` (function cut before `t_arr = ...`)'))
-    parts.append(P.translate_function(tsrc, ttree, 'sulfuric_acid_density', lean_name='sulfuricTU', params=['w', 'T'], units_mode=True,
+    parts.append(tf(tsrc, ttree, 'sulfuric_acid_density', lean_name='sulfuricTU', params=['w', 'T'], units_mode=True,
                                       extra_funcs=TU, doc='`t_K` (= `to_unitless(t / K)`) of `sulfuric_acid_density` with a units object'))
     usrc, utree = truncated(src, tree, 'sulfuric_acid_density', is_tarr, 'kg / m3')
-    parts.append(P.translate_function(usrc, utree, 'sulfuric_acid_density', lean_name='sulfuricUnitU', params=['w', 'T'], units_mode=True, extra_funcs=TU,
+    parts.append(tf(usrc, utree, 'sulfuric_acid_density', lean_name='sulfuricUnitU', params=['w', 'T'], units_mode=True, extra_funcs=TU,
                                       doc='the unit `kg / m3` multiplied onto the sum in `sulfuric_acid_density` with a units object'))
     # shape of the hand-modelled tail: emitted as text, guarded in the model
     f = find_def(tree, 'sulfuric_acid_density')
@@ -307,7 +321,7 @@ def generate(repo):
                  % ', '.join(lean_str(t) for t in tail))
     dsrc, dtree = truncated(src, tree, 'density_from_concentration', _assigns('delta_rho'), '(atol, molar_mass, rho)',
                              drop_params=('rho_cb', 'kwargs'))
-    parts.append(P.translate_function(dsrc, dtree, 'density_from_concentration', lean_name='dfcInit', params=['conc'], split_tuple=True,
+    parts.append(tf(dsrc, dtree, 'density_from_concentration', lean_name='dfcInit', params=['conc'], split_tuple=True,
                                       doc='(default atol, default molar_mass, start value of rho) of `density_from_concentration`, units=None'))
     d = find_def(tree, 'density_from_concentration')
     dmap = dict(zip([a.arg for a in d.args.args][len(d.args.args) - len(d.args.defaults):], d.args.defaults))
@@ -340,16 +354,17 @@ def generate(repo):
     # ---- Henry ------------------------------------------------------------------------------------------
     src, tree = parse(repo, D_HENRY)
     hsrc, htree = normalised(src, tree, 'Henry_H_at_T')
-    parts.append(P.translate_function(hsrc, htree, 'Henry_H_at_T', lean_name='henryHAtTU', params=['T', 'H', 'Tderiv', 'T0'], units_mode=True,
+    parts.append(tf(hsrc, htree, 'Henry_H_at_T', lean_name='henryHAtTU', params=['T', 'H', 'Tderiv', 'T0'], units_mode=True,
                                       extra_funcs=TU, doc='`Henry_H_at_T(T, H, Tderiv, T0, units=u)` with an explicit reference temperature'))
-    parts.append(P.translate_function(hsrc, htree, 'Henry_H_at_T', lean_name='henryHAtT', params=['T', 'H', 'Tderiv', 'T0'],
+    parts.append(tf(hsrc, htree, 'Henry_H_at_T', lean_name='henryHAtT', params=['T', 'H', 'Tderiv', 'T0'],
                                       doc='`Henry_H_at_T(T, H, Tderiv, T0)` with an explicit reference temperature, units=None'))
-    parts.append(P.translate_function(hsrc, htree, 'Henry_H_at_T', lean_name='henryHAtTDefault', params=['T', 'H', 'Tderiv'],
+    parts.append(tf(hsrc, htree, 'Henry_H_at_T', lean_name='henryHAtTDefault', params=['T', 'H', 'Tderiv'],
                                       doc='`Henry_H_at_T(T, H, Tderiv)`: T0 = 298.15 (units=None)'))
-    parts.append(P.translate_function(hsrc, htree, 'Henry_H_at_T', lean_name='henryHAtTDefaultU', params=['T', 'H', 'Tderiv'], units_mode=True,
+    parts.append(tf(hsrc, htree, 'Henry_H_at_T', lean_name='henryHAtTDefaultU', params=['T', 'H', 'Tderiv'], units_mode=True,
                                       extra_funcs=TU,
                                       doc='`Henry_H_at_T(T, H, Tderiv, units=u)`: T0 = 298.15 * u.Kelvin'))
-    for meth, ln in (('__call__', 'henryCallSrc'), ('get_c_at_T_and_P', 'henryGetCSrc'), ('get_P_at_T_and_c', 'henryGetPSrc')):
+    for meth, ln in (('__call__', 'henryCallSrc'), ('get_kH_at_T', 'henryGetKHSrc'), ('get_c_at_T_and_P', 'henryGetCSrc'),
+                     ('get_P_at_T_and_c', 'henryGetPSrc')):
         txt, args = return_text(src, tree, 'Henry', meth)
         parts.append('/-- `return` expression and parameters of `Henry.%s` -/\ndef %s : String × List String := (%s, [%s])\n'
                      % (meth, ln, lean_str(txt), ', '.join(lean_str(a) for a in args)))
@@ -370,18 +385,18 @@ def generate(repo):
                 return val
             return None
         return h
-    parts.append(P.translate_function(nsrc, ntree, 'nernst_potential', lean_name='nernstPotential', params=NP, cond_hook=hook(False),
+    parts.append(tf(nsrc, ntree, 'nernst_potential', lean_name='nernstPotential', params=NP, cond_hook=hook(False),
                                       doc='`nernst_potential` on plain numbers (constants=None, units=None)'))
-    parts.append(P.translate_function(nsrc, ntree, 'nernst_potential', lean_name='nernstPotentialU', params=NP, units_mode=True,
+    parts.append(tf(nsrc, ntree, 'nernst_potential', lean_name='nernstPotentialU', params=NP, units_mode=True,
                                       cond_hook=hook(True), extra_funcs=tu,
                                       doc='`nernst_potential(..., constants=None, units=u)` on quantities (the ratio has a `dimensionality`)'))
-    parts.append(P.translate_function(nsrc, ntree, 'nernst_potential', lean_name='nernstPotentialQ', params=NP, cond_hook=hook(True),
+    parts.append(tf(nsrc, ntree, 'nernst_potential', lean_name='nernstPotentialQ', params=NP, cond_hook=hook(True),
                                       extra_funcs=tu,
                                       doc='`nernst_potential` with constants=None, units=None and concentrations that are quantities (T a plain number)'))
-    parts.append(P.translate_function(nsrc, ntree, 'nernst_potential', lean_name='nernstPotentialC', params=NP, objects=('constants',),
+    parts.append(tf(nsrc, ntree, 'nernst_potential', lean_name='nernstPotentialC', params=NP, objects=('constants',),
                                       cond_hook=hook(False),
                                       doc='`nernst_potential(..., constants=c)` with a plain-number concentration ratio'))
-    parts.append(P.translate_function(nsrc, ntree, 'nernst_potential', lean_name='nernstPotentialCU', params=NP, objects=('constants',),
+    parts.append(tf(nsrc, ntree, 'nernst_potential', lean_name='nernstPotentialCU', params=NP, objects=('constants',),
                                       cond_hook=hook(True), extra_funcs=tu,
                                       doc='`nernst_potential(..., constants=c)` with concentrations that are quantities'))
 
@@ -389,8 +404,8 @@ def generate(repo):
     src, tree = parse(repo, D_MOB)
     msrc, mtree = normalised(src, tree, 'electrical_mobility_from_D')
     MP = ['D', 'charge', 'T']
-    parts.append(P.translate_function(msrc, mtree, 'electrical_mobility_from_D', lean_name='mobility', params=MP))
-    parts.append(P.translate_function(msrc, mtree, 'electrical_mobility_from_D', lean_name='mobilityU', params=MP, units_mode=True))
-    parts.append(P.translate_function(msrc, mtree, 'electrical_mobility_from_D', lean_name='mobilityC', params=MP, objects=('constants',)))
+    parts.append(tf(msrc, mtree, 'electrical_mobility_from_D', lean_name='mobility', params=MP))
+    parts.append(tf(msrc, mtree, 'electrical_mobility_from_D', lean_name='mobilityU', params=MP, units_mode=True))
+    parts.append(tf(msrc, mtree, 'electrical_mobility_from_D', lean_name='mobilityC', params=MP, objects=('constants',)))
 
     return {'FnProps.lean': P.wrap_module(parts, 'chempy/properties/*.py, henry.py, electrochemistry/nernst.py, einstein_smoluchowski.py')}
